@@ -95,6 +95,9 @@ type host struct {
 	cmdLog  []string
 	trace   []Ev
 	lastOpt int // number of options of the last element (0 if it was not an option group)
+	// holdPending: the <<hold>> command returns a channel that is never completed (else it completes at once)
+	holdPending bool
+	held        []chan error
 }
 
 func readers(srcs []string) []io.Reader {
@@ -141,8 +144,22 @@ func (h *host) register() {
 		h.fnLog = append(h.fnLog, "noret()")
 		return nil, nil
 	})
+	h.dr.AddCommand("hold", func(args []*variable.Value) <-chan error {
+		h.cmdLog = append(h.cmdLog, "hold()")
+		if h.holdPending {
+			ch := make(chan error)
+			h.held = append(h.held, ch)
+			return ch
+		}
+		ch := make(chan error, 1)
+		ch <- nil
+		return ch
+	})
 	for name := range modelCommands {
 		name := name
+		if name == "hold" {
+			continue
+		}
 		h.dr.AddCommand(name, func(args []*variable.Value) <-chan error {
 			h.cmdLog = append(h.cmdLog, showCall(name, toMvals(args)))
 			ch := make(chan error, 1)
